@@ -104,7 +104,7 @@ fn child_types(dt: &DataType) -> Vec<DataType> {
 /// the type tree uses a layout the Lean `DType` does not have
 fn is_ext(dt: &DataType) -> bool {
     use DataType::*;
-    matches!(dt, Utf8View | BinaryView | ListView(_) | LargeListView(_)) || phys_ty(dt) == "?" || child_types(dt).iter().any(is_ext)
+    matches!(dt, ListView(_) | LargeListView(_)) || phys_ty(dt) == "?" || child_types(dt).iter().any(is_ext)
 }
 
 // ----------------------------------------------------------------------------- physical layout
@@ -487,9 +487,9 @@ fn like_pattern(dt: &DataType, pat: &str) -> Option<ArrayRef> {
     arrow_cast::cast(&StringArray::from(vec![pat]), &vt).ok()
 }
 
-const STEPS: [&str; 22] = [
+const STEPS: [&str; 30] = [
     "filter", "take", "concat", "interleave", "zip", "nullif", "shift", "slice", "cast", "sort", "arith", "cmp", "string", "rowconv", "ipc", "json",
-    "csv", "build", "bool", "norm", "filter", "take",
+    "csv", "build", "bool", "norm", "filter", "take", "select2", "arith2", "ord2", "string2", "ctor", "mutable", "access", "select2",
 ];
 
 fn no_support(s: &str) -> ArrowError {
@@ -667,8 +667,22 @@ fn apply(name: &str, seed: u64, a: &ArrayRef, desc: &str) -> Result<ArrayRef, Ar
             let schema = Arc::new(Schema::new(vec![Field::new("c0", dt.clone(), true), Field::new("c1", dt.clone(), true)]));
             let batch = RecordBatch::try_new(schema.clone(), vec![a.clone(), other])?;
             let mut bytes: Vec<u8> = vec![];
+            let opts = {
+                let o = arrow_ipc::writer::IpcWriteOptions::default();
+                match rng.below(4) {
+                    0 => {
+                        tag("ipc:lz4".into());
+                        o.try_with_compression(Some(arrow_ipc::CompressionType::LZ4_FRAME))?
+                    }
+                    1 => {
+                        tag("ipc:zstd".into());
+                        o.try_with_compression(Some(arrow_ipc::CompressionType::ZSTD))?
+                    }
+                    _ => o,
+                }
+            };
             if rng.bool() {
-                let mut w = arrow_ipc::writer::StreamWriter::try_new(&mut bytes, &schema)?;
+                let mut w = arrow_ipc::writer::StreamWriter::try_new_with_options(&mut bytes, &schema, opts)?;
                 w.write(&batch)?;
                 w.finish()?;
                 drop(w);
@@ -677,7 +691,7 @@ fn apply(name: &str, seed: u64, a: &ArrayRef, desc: &str) -> Result<ArrayRef, Ar
                 emit_batch(&b, desc, "ipc-stream");
                 Ok(b.column(0).clone())
             } else {
-                let mut w = arrow_ipc::writer::FileWriter::try_new(&mut bytes, &schema)?;
+                let mut w = arrow_ipc::writer::FileWriter::try_new_with_options(&mut bytes, &schema, opts)?;
                 w.write(&batch)?;
                 w.finish()?;
                 drop(w);
@@ -730,6 +744,265 @@ fn apply(name: &str, seed: u64, a: &ArrayRef, desc: &str) -> Result<ArrayRef, Ar
                 }
             }
         }
+
+        "select2" => {
+            let schema = Arc::new(Schema::new(vec![Field::new("c0", dt.clone(), true), Field::new("c1", dt.clone(), true)]));
+            let mk_batch = |x: &ArrayRef| -> Result<RecordBatch, ArrowError> { RecordBatch::try_new(schema.clone(), vec![x.clone(), rotated(x, 1)?]) };
+            let m = if n == 0 { rng.usize(3) } else { rng.usize(n + 4) };
+            let idx = UInt32Array::from((0..m).map(|_| if n == 0 || rng.chance(1, 5) { None } else { Some(rng.usize(n) as u32) }).collect::<Vec<_>>());
+            let v = rng.below(10);
+            tag(format!("select2:{}", v));
+            match v {
+                0 => {
+                    expect_len(m);
+                    let mut out = arrow_select::take::take_arrays(&[a.clone(), rotated(a, 1)?], &idx, None)?;
+                    emit_array(&out[1], &format!("{}/take_arrays.1", desc));
+                    Ok(out.remove(0))
+                }
+                1 => {
+                    let b = arrow_select::filter::filter_record_batch(&mk_batch(a)?, &rand_mask(rng, n))?;
+                    emit_batch(&b, desc, "filter_record_batch");
+                    Ok(b.column(0).clone())
+                }
+                2 => {
+                    expect_len(m);
+                    let b = arrow_select::take::take_record_batch(&mk_batch(a)?, &idx)?;
+                    emit_batch(&b, desc, "take_record_batch");
+                    Ok(b.column(0).clone())
+                }
+                3 => {
+                    let b = mk_batch(a)?;
+                    let o = rng.usize(n + 1);
+                    let parts = vec![b.slice(o, n - o), b.clone(), b.slice(0, o)];
+                    expect_len(2 * n);
+                    let c = arrow_select::concat::concat_batches(&schema, parts.iter())?;
+                    emit_batch(&c, desc, "concat_batches");
+                    Ok(c.column(0).clone())
+                }
+                4 => {
+                    let b1 = mk_batch(a)?;
+                    let o = rng.usize(n + 1);
+                    let b2 = b1.slice(o, n - o);
+                    let bs = [&b1, &b2];
+                    let mut ix = vec![];
+                    for _ in 0..rng.usize(n + 4) {
+                        let k = rng.usize(2);
+                        if bs[k].num_rows() > 0 {
+                            ix.push((k, rng.usize(bs[k].num_rows())));
+                        }
+                    }
+                    expect_len(ix.len());
+                    let c = arrow_select::interleave::interleave_record_batch(&bs, &ix)?;
+                    emit_batch(&c, desc, "interleave_record_batch");
+                    Ok(c.column(0).clone())
+                }
+                5 => {
+                    // BatchCoalescer: several pushes (plain, filtered, by indices), then drain
+                    let mut co = arrow_select::coalesce::BatchCoalescer::new(schema.clone(), 1 + rng.usize(9));
+                    let b = mk_batch(a)?;
+                    for _ in 0..1 + rng.usize(3) {
+                        match rng.below(3) {
+                            0 => co.push_batch(b.clone())?,
+                            1 => co.push_batch_with_filter(b.clone(), &rand_mask(rng, n))?,
+                            _ => {
+                                if n > 0 {
+                                    let ix = UInt64Array::from((0..rng.usize(n + 2)).map(|_| rng.usize(n) as u64).collect::<Vec<_>>());
+                                    co.push_batch_with_indices(b.clone(), &ix)?
+                                }
+                            }
+                        }
+                    }
+                    co.finish_buffered_batch()?;
+                    let mut last = None;
+                    while let Some(ob) = co.next_completed_batch() {
+                        emit_batch(&ob, desc, "coalesce");
+                        last = Some(ob);
+                    }
+                    last.map(|b| b.column(0).clone()).ok_or_else(|| no_support("coalesce: empty"))
+                }
+                6 => {
+                    let m = BooleanArray::from((0..n).map(|_| rng.bool()).collect::<Vec<_>>());
+                    let t = m.true_count();
+                    expect_len(n);
+                    arrow_select::merge::merge(&m, &a.slice(0, t), &a.slice(0, n - t))
+                }
+                7 => {
+                    let ix: Vec<Option<usize>> = (0..rng.usize(n + 1)).map(|_| if rng.chance(1, 5) { None } else { Some(rng.usize(2)) }).collect();
+                    expect_len(ix.len());
+                    arrow_select::merge::merge_n(&[a.as_ref(), a.as_ref()], &ix)
+                }
+                8 => match a.as_any().downcast_ref::<UnionArray>() {
+                    Some(u) => {
+                        expect_len(n);
+                        let name = match &dt {
+                            DataType::Union(f, _) => f.iter().nth(rng.usize(f.len())).map(|(_, f)| f.name().clone()).unwrap_or_default(),
+                            _ => String::new(),
+                        };
+                        arrow_select::union_extract::union_extract(u, &name)
+                    }
+                    None => Err(no_support("union_extract")),
+                },
+                _ => match a.as_any_dictionary_opt() {
+                    Some(d) => {
+                        expect_len(n);
+                        arrow_select::dictionary::garbage_collect_any_dictionary(d)
+                    }
+                    None => Err(no_support("gc dictionary")),
+                },
+            }
+        }
+        "arith2" => {
+            expect_len(n);
+            let v = rng.below(12);
+            tag(format!("arith2:{}", v));
+            match v {
+                0 => arrow_arith::numeric::add(a, a),
+                1 => arrow_arith::numeric::sub(a, &rotated(a, 1)?),
+                2 => arrow_arith::numeric::mul(a, &rotated(a, 1)?),
+                3 => arrow_arith::numeric::div(a, &rotated(a, 1)?),
+                4 => arrow_arith::numeric::rem(a, &rotated(a, 1)?),
+                5 => arrow_arith::numeric::neg(a.as_ref()),
+                6 => match a.as_primitive_opt::<Int32Type>() {
+                    Some(p) => {
+                        let r = rotated(a, 1)?;
+                        let q = r.as_primitive::<Int32Type>();
+                        Ok(match rng.below(5) {
+                            0 => Arc::new(arrow_arith::bitwise::bitwise_and(p, q)?) as ArrayRef,
+                            1 => Arc::new(arrow_arith::bitwise::bitwise_or(p, q)?),
+                            2 => Arc::new(arrow_arith::bitwise::bitwise_xor(p, q)?),
+                            3 => Arc::new(arrow_arith::bitwise::bitwise_not(p)?),
+                            _ => Arc::new(arrow_arith::bitwise::bitwise_shift_left_scalar(p, 3)?),
+                        })
+                    }
+                    None => Err(no_support("bitwise")),
+                },
+                7 => {
+                    let l = match a.as_boolean_opt() {
+                        Some(b) => b.clone(),
+                        None => arrow_arith::boolean::is_null(a.as_ref())?,
+                    };
+                    let r = rand_mask(rng, n);
+                    Ok(Arc::new(match rng.below(5) {
+                        0 => arrow_arith::boolean::and(&l, &r)?,
+                        1 => arrow_arith::boolean::or(&l, &r)?,
+                        2 => arrow_arith::boolean::and_kleene(&l, &r)?,
+                        3 => arrow_arith::boolean::or_kleene(&l, &r)?,
+                        _ => arrow_arith::boolean::and_not(&l, &r)?,
+                    }))
+                }
+                8 => {
+                    use arrow_arith::temporal::DatePart;
+                    let part = *rng.pick(&[DatePart::Year, DatePart::Quarter, DatePart::Month, DatePart::Week, DatePart::Day, DatePart::Hour, DatePart::Nanosecond, DatePart::DayOfWeekSunday0]);
+                    arrow_arith::temporal::date_part(a.as_ref(), part)
+                }
+                9 => match a.as_primitive_opt::<Int32Type>() {
+                    Some(p) => Ok(Arc::new(arrow_arith::arity::unary::<_, _, Int64Type>(p, |x| x as i64 * 3))),
+                    None => Err(no_support("unary")),
+                },
+                10 => match a.as_primitive_opt::<Int64Type>() {
+                    Some(p) => Ok(Arc::new(arrow_arith::arity::try_unary::<_, _, Int64Type>(p, |x| x.checked_mul(2).ok_or(ArrowError::ArithmeticOverflow("x".into())))?)),
+                    None => Err(no_support("try_unary")),
+                },
+                _ => match a.as_primitive_opt::<Float64Type>() {
+                    Some(p) => {
+                        let r = rotated(a, 1)?;
+                        Ok(Arc::new(arrow_arith::arity::binary::<_, _, _, Float64Type>(p, r.as_primitive::<Float64Type>(), |x, y| x + y)?))
+                    }
+                    None => Err(no_support("binary")),
+                },
+            }
+        }
+        "ord2" => {
+            let o1 = Some(SortOptions { descending: rng.bool(), nulls_first: rng.bool() });
+            let cols = vec![
+                arrow_ord::sort::SortColumn { values: a.clone(), options: o1 },
+                arrow_ord::sort::SortColumn { values: rotated(a, 1)?, options: None },
+            ];
+            let limit = if rng.bool() { Some(rng.usize(n + 2)) } else { None };
+            expect_len(limit.map(|l| l.min(n)).unwrap_or(n));
+            if rng.bool() {
+                let mut out = arrow_ord::sort::lexsort(&cols, limit)?;
+                emit_array(&out[1], &format!("{}/lexsort.1", desc));
+                Ok(out.remove(0))
+            } else {
+                Ok(Arc::new(arrow_ord::sort::lexsort_to_indices(&cols, limit)?))
+            }
+        }
+        "string2" => {
+            expect_len(n);
+            let v = rng.below(8);
+            tag(format!("string2:{}", v));
+            let pat = |s: &str| like_pattern(&dt, s).ok_or_else(|| no_support("pattern"));
+            match v {
+                0 => match a.as_string_opt::<i32>() {
+                    Some(sa) => Ok(Arc::new(arrow_string::regexp::regexp_is_match_scalar(sa, *rng.pick(&["a.*", "^z", "\u{e9}", "[a-z]+$", ""]), if rng.bool() { Some("i") } else { None })?)),
+                    None => Err(no_support("regexp_is_match")),
+                },
+                1 => arrow_string::regexp::regexp_match(a.as_ref(), &Scalar::new(pat(*rng.pick(&["(a)(z)?", "([a-z])", "\u{20ac}", "x"]))?), None),
+                2 => Ok(Arc::new(arrow_string::like::ilike(a, &Scalar::new(pat("A%")?))?)),
+                3 => Ok(Arc::new(arrow_string::like::nlike(a, &Scalar::new(pat("%z")?))?)),
+                4 => Ok(Arc::new(arrow_string::like::starts_with(a, &Scalar::new(pat("a")?))?)),
+                5 => Ok(Arc::new(arrow_string::like::ends_with(a, &rotated(a, 1)?)?)),
+                6 => arrow_string::length::bit_length(a.as_ref()),
+                _ => match a.as_string_opt::<i32>() {
+                    Some(sa) => Ok(Arc::new(arrow_string::substring::substring_by_char(sa, rng.range(-2, 2), if rng.bool() { Some(rng.below(3)) } else { None })?)),
+                    None => Err(no_support("substring_by_char")),
+                },
+            }
+        }
+        "ctor" => step_ctor(rng, a),
+        "mutable" => {
+            // arrow-data/src/transform: MutableArrayData over two sources
+            let d1 = a.to_data();
+            let d2 = rotated(a, 1)?.to_data();
+            let use_nulls = rng.bool();
+            let mut m = arrow_data::transform::MutableArrayData::new(vec![&d1, &d2], use_nulls, rng.usize(8));
+            let mut want = 0usize;
+            for _ in 0..rng.usize(5) {
+                if use_nulls && rng.chance(1, 4) {
+                    let k = rng.usize(4);
+                    m.try_extend_nulls(k)?;
+                    want += k;
+                } else {
+                    let o = rng.usize(n + 1);
+                    let e = o + rng.usize(n - o + 1);
+                    m.try_extend(rng.usize(2), o, e)?;
+                    want += e - o;
+                }
+            }
+            expect_len(want);
+            let frozen = m.freeze();
+            emit_data(&frozen, &format!("{}/freeze", desc));
+            Ok(make_array(frozen))
+        }
+        "access" => {
+            // accessors that hand out arrays
+            use DataType::*;
+            let i = if n > 0 { rng.usize(n) } else { 0 };
+            match &dt {
+                List(_) if n > 0 => Ok(if rng.bool() { a.as_list::<i32>().value(i) } else { a.as_list::<i32>().values().clone() }),
+                LargeList(_) if n > 0 => Ok(a.as_list::<i64>().value(i)),
+                FixedSizeList(..) if n > 0 => Ok(if rng.bool() { a.as_fixed_size_list().value(i) } else { a.as_fixed_size_list().values().clone() }),
+                Map(..) if n > 0 => Ok(if rng.bool() { Arc::new(a.as_map().value(i)) as ArrayRef } else { a.as_map().keys().clone() }),
+                Struct(f) if !f.is_empty() => Ok(a.as_struct().column(rng.usize(f.len())).clone()),
+                Dictionary(..) => {
+                    let d = a.as_any_dictionary();
+                    Ok(if rng.bool() { make_array(d.keys().to_data()) } else { d.values().clone() })
+                }
+                RunEndEncoded(r, _) => match r.data_type() {
+                    Int32 => {
+                        let ra = a.as_any().downcast_ref::<RunArray<Int32Type>>().unwrap();
+                        Ok(if rng.bool() { ra.values().clone() } else { Arc::new(PrimitiveArray::<Int32Type>::new(ra.run_ends().inner().clone(), None)) })
+                    }
+                    _ => Err(no_support("access ree")),
+                },
+                Union(f, _) if n > 0 => {
+                    let u = a.as_any().downcast_ref::<UnionArray>().unwrap();
+                    Ok(if rng.bool() { u.value(i) } else { u.child(f.iter().next().unwrap().0).clone() })
+                }
+                _ => Err(no_support("access")),
+            }
+        }
         _ => Err(no_support("unknown step")),
     }
 }
@@ -768,7 +1041,10 @@ fn emit_batch(b: &RecordBatch, desc: &str, what: &str) {
         format!("C01 batch {}/{} {} {} {}", desc, what, b.num_rows(), fields, cols)
     }));
     match r {
-        Ok(line) => EXTRA.with(|e| e.borrow_mut().push((line, format!("op:batch src:{} nt", what)))),
+        Ok(line) => {
+            let kf = if schema.fields().iter().any(|f| has_fsb0(f.data_type())) { " kf:zero-width-select" } else { "" };
+            EXTRA.with(|e| e.borrow_mut().push((line, format!("op:batch src:{} nt{}", what, kf))))
+        }
         Err(_) => oracle(format!("panic:dump-batch:{}", what)),
     }
     // every other column is a produced array too
@@ -792,6 +1068,9 @@ fn emit_data(d: &ArrayData, desc: &str) {
     let r = catch_unwind(AssertUnwindSafe(|| {
         if let Err(e) = d.validate_full() {
             oracle(format!("out-validate_full-err:{}:{}", desc.rsplit('/').next().unwrap_or(""), err_class(&e)));
+            if has_fsb0(d.data_type()) {
+                kf("kf:zero-width-select".into());
+            }
         }
         if d.len() > MAX_ROWS {
             return None;
@@ -879,8 +1158,35 @@ fn step_json(rng: &mut Rng, desc: &str) -> Result<ArrayRef, ArrowError> {
         }
         text.push_str(&format!("{{{}}}\n", parts.join(",")));
     }
-    let mut reader = arrow_json::ReaderBuilder::new(schema).with_batch_size(1 + rng.usize(8)).build(std::io::Cursor::new(text.into_bytes()))?;
     let mut last: Option<RecordBatch> = None;
+    if rng.chance(1, 3) {
+        // push decoder, input fed in small chunks
+        tag("json:decoder".into());
+        let mut dec = arrow_json::ReaderBuilder::new(schema).with_batch_size(1 + rng.usize(8)).build_decoder()?;
+        let bytes = text.into_bytes();
+        let chunk = 1 + rng.usize(9);
+        let mut pos = 0;
+        while pos < bytes.len() {
+            let end = (pos + chunk).min(bytes.len());
+            let used = dec.decode(&bytes[pos..end])?;
+            if used < end - pos {
+                if let Some(b) = dec.flush()? {
+                    emit_batch(&b, desc, "json-decoder");
+                    last = Some(b);
+                }
+            }
+            pos += used;
+        }
+        if let Some(b) = dec.flush()? {
+            emit_batch(&b, desc, "json-decoder");
+            last = Some(b);
+        }
+        return match last {
+            Some(b) => Ok(b.column(0).clone()),
+            None => Err(no_support("json: no batch")),
+        };
+    }
+    let mut reader = arrow_json::ReaderBuilder::new(schema).with_batch_size(1 + rng.usize(8)).build(std::io::Cursor::new(text.into_bytes()))?;
     for b in &mut reader {
         let b = b?;
         emit_batch(&b, desc, "json");
@@ -932,8 +1238,38 @@ fn step_csv(rng: &mut Rng, desc: &str) -> Result<ArrayRef, ArrowError> {
         text.push_str(&parts.join(","));
         text.push('\n');
     }
-    let mut reader = arrow_csv::ReaderBuilder::new(schema).with_header(false).with_batch_size(1 + rng.usize(8)).build(std::io::Cursor::new(text.into_bytes()))?;
     let mut last: Option<RecordBatch> = None;
+    if rng.chance(1, 3) {
+        tag("csv:decoder".into());
+        let mut dec = arrow_csv::ReaderBuilder::new(schema).with_header(false).with_batch_size(1 + rng.usize(8)).build_decoder();
+        let bytes = text.into_bytes();
+        let chunk = 1 + rng.usize(9);
+        let mut pos = 0;
+        while pos < bytes.len() {
+            let end = (pos + chunk).min(bytes.len());
+            let used = dec.decode(&bytes[pos..end])?;
+            if used < end - pos || dec.capacity() == 0 {
+                if let Some(b) = dec.flush()? {
+                    emit_batch(&b, desc, "csv-decoder");
+                    last = Some(b);
+                }
+            }
+            pos += used;
+            if used == 0 && dec.capacity() > 0 {
+                break;
+            }
+        }
+        dec.decode(&[])?;
+        if let Some(b) = dec.flush()? {
+            emit_batch(&b, desc, "csv-decoder");
+            last = Some(b);
+        }
+        return match last {
+            Some(b) => Ok(b.column(0).clone()),
+            None => Err(no_support("csv: no batch")),
+        };
+    }
+    let mut reader = arrow_csv::ReaderBuilder::new(schema).with_header(false).with_batch_size(1 + rng.usize(8)).build(std::io::Cursor::new(text.into_bytes()))?;
     for b in &mut reader {
         let b = b?;
         emit_batch(&b, desc, "csv");
@@ -943,6 +1279,77 @@ fn step_csv(rng: &mut Rng, desc: &str) -> Result<ArrayRef, ArrowError> {
         Some(b) => Ok(b.column(0).clone()),
         None => Err(no_support("csv: no batch")),
     }
+}
+
+
+/// typed constructors (`from`, `from_iter`, `new`, `try_new`, `new_null`, …): a second entry point next to
+/// `ArrayData` + `make_array` and the builders
+fn step_ctor(rng: &mut Rng, a: &ArrayRef) -> Result<ArrayRef, ArrowError> {
+    use arrow_buffer::OffsetBuffer;
+    let n = rng.usize(14);
+    let v = rng.below(24);
+    tag(format!("ctor:{}", v));
+    let nulls = |rng: &mut Rng, n: usize| -> Option<NullBuffer> { if rng.bool() { Some(NullBuffer::from((0..n).map(|_| rng.chance(3, 4)).collect::<Vec<_>>())) } else { None } };
+    let ints = |rng: &mut Rng, n: usize| Int32Array::from((0..n).map(|_| if rng.chance(1, 4) { None } else { Some(rng.range(-5, 5) as i32) }).collect::<Vec<_>>());
+    let strs = |rng: &mut Rng, n: usize| StringArray::from((0..n).map(|_| if rng.chance(1, 4) { None } else { Some(*rng.pick(&WORDS)) }).collect::<Vec<_>>());
+    Ok(match v {
+        0 => new_null_array(a.data_type(), n),
+        1 => new_empty_array(a.data_type()),
+        2 => {
+            let grid = type_grid();
+            let t = &rng.pick(&grid).1;
+            tag(format!("ctor-null-of:{}", kind_tag(t)));
+            new_null_array(t, n)
+        }
+        3 => Arc::new(Int64Array::from_iter((0..n).map(|i| if i % 3 == 0 { None } else { Some(i as i64) }))),
+        4 => Arc::new(UInt16Array::from_iter_values((0..n).map(|i| i as u16))),
+        5 => Arc::new(PrimitiveArray::<Float32Type>::try_new(ScalarBuffer::from((0..n).map(|i| i as f32).collect::<Vec<_>>()), nulls(rng, n))?),
+        6 => Arc::new(PrimitiveArray::<Date32Type>::new_null(n)),
+        7 => Arc::new(BooleanArray::new(arrow_buffer::BooleanBuffer::collect_bool(n, |i| i % 3 == 0), nulls(rng, n))),
+        8 => Arc::new(strs(rng, n)),
+        9 => {
+            let lens: Vec<usize> = (0..n).map(|_| rng.usize(4)).collect();
+            let total: usize = lens.iter().sum();
+            Arc::new(LargeStringArray::try_new(OffsetBuffer::from_lengths(lens), Buffer::from_vec(vec![b'q'; total]), nulls(rng, n))?)
+        }
+        10 => Arc::new(LargeBinaryArray::from_opt_vec((0..n).map(|i| if i % 4 == 0 { None } else { Some(&b"\x00\xff\x80"[..i % 4]) }).collect())),
+        11 => Arc::new(FixedSizeBinaryArray::try_from_sparse_iter_with_size((0..n).map(|i| if i % 3 == 0 { None } else { Some(vec![i as u8; 2]) }), 2)?),
+        12 => Arc::new(ListArray::from_iter_primitive::<Int32Type, _, _>((0..n).map(|i| if i % 5 == 0 { None } else { Some((0..i % 3).map(|j| if j == 1 { None } else { Some(j as i32) }).collect::<Vec<_>>()) }))),
+        13 => {
+            let lens: Vec<usize> = (0..n).map(|_| rng.usize(3)).collect();
+            let total: usize = lens.iter().sum();
+            Arc::new(LargeListArray::try_new(Arc::new(Field::new("item", DataType::Utf8, true)), OffsetBuffer::from_lengths(lens), Arc::new(strs(rng, total)), nulls(rng, n))?)
+        }
+        14 => Arc::new(FixedSizeListArray::try_new(Arc::new(Field::new("item", DataType::Int32, true)), 3, Arc::new(ints(rng, 3 * n)), nulls(rng, n))?),
+        15 => Arc::new(StructArray::try_new(
+            Fields::from(vec![Field::new("a", DataType::Int32, true), Field::new("b", DataType::Utf8, true)]),
+            vec![Arc::new(ints(rng, n)), Arc::new(strs(rng, n))],
+            nulls(rng, n),
+        )?),
+        16 => Arc::new(StructArray::new_null(Fields::from(vec![Field::new("a", DataType::Int32, true), Field::new("l", DataType::List(Arc::new(Field::new("item", DataType::Int8, true))), true)]), n)),
+        17 => Arc::new((0..n).map(|i| if i % 4 == 0 { None } else { Some(WORDS[i % 5]) }).collect::<DictionaryArray<Int8Type>>()),
+        18 => {
+            let vals = strs(rng, 3);
+            let keys = UInt8Array::from((0..n).map(|_| if rng.chance(1, 4) { None } else { Some(rng.usize(3) as u8) }).collect::<Vec<_>>());
+            Arc::new(DictionaryArray::try_new(keys, Arc::new(vals))?)
+        }
+        19 => {
+            let runs = 1 + rng.usize(4);
+            let mut e = 0i32;
+            let ends: Vec<i32> = (0..runs).map(|_| { e += 1 + rng.usize(3) as i32; e }).collect();
+            Arc::new(RunArray::<Int32Type>::try_new(&Int32Array::from(ends), &strs(rng, runs))?)
+        }
+        20 => {
+            let fields = UnionFields::try_new(vec![3, 9], vec![Field::new("i", DataType::Int32, true), Field::new("s", DataType::Utf8, true)])?;
+            let (ci, cs) = (ints(rng, 4), strs(rng, 4));
+            let ids: Vec<i8> = (0..n).map(|_| if rng.bool() { 3 } else { 9 }).collect();
+            let offs: Vec<i32> = (0..n).map(|_| rng.usize(4) as i32).collect();
+            Arc::new(UnionArray::try_new(fields, ScalarBuffer::from(ids), Some(ScalarBuffer::from(offs)), vec![Arc::new(ci), Arc::new(cs)])?)
+        }
+        21 => Arc::new(StringViewArray::from_iter((0..n).map(|i| if i % 4 == 0 { None } else { Some(HIST_WORDS[i % 9]) }))),
+        22 => Arc::new(Decimal128Array::from((0..n).map(|i| if i % 3 == 0 { None } else { Some(i as i128 * 1001) }).collect::<Vec<_>>()).with_precision_and_scale(12, 3)?),
+        _ => Arc::new(TimestampMicrosecondArray::from((0..n).map(|i| Some(i as i64 * 86_400_000_000)).collect::<Vec<_>>()).with_timezone("+02:00")),
+    })
 }
 
 fn step_build(rng: &mut Rng) -> Result<ArrayRef, ArrowError> {
@@ -1208,7 +1615,10 @@ fn run_kcase(t: &[&str]) -> String {
                 _ => arrow_select::take::take(a.as_ref(), &UInt8Array::from(idx.iter().map(|x| x.map(|v| v as u8)).collect::<Vec<_>>()), None),
             };
             match out {
-                Ok(o) => canon_kernel(&o, &null_idx),
+                Ok(o) => {
+                    emit_array(&o, "ktake");
+                    canon_kernel(&o, &null_idx)
+                }
                 Err(e) => format!("ERR:{}", err_class(&e)),
             }
         }
@@ -1222,7 +1632,10 @@ fn run_kcase(t: &[&str]) -> String {
             let m = BooleanArray::from(v).slice(k, bits.len());
             let out = if t[6] == "1" { arrow_select::filter::FilterBuilder::new(&m).optimize().build().filter(a.as_ref()) } else { arrow_select::filter::filter(a.as_ref(), &m) };
             match out {
-                Ok(o) => canon_kernel(&o, &[]),
+                Ok(o) => {
+                    emit_array(&o, "kfilter");
+                    canon_kernel(&o, &[])
+                }
                 Err(e) => format!("ERR:{}", err_class(&e)),
             }
         }
@@ -1230,7 +1643,10 @@ fn run_kcase(t: &[&str]) -> String {
             let parts: Vec<ArrayRef> = t[3].split('+').map(|d| make_array(build(&parse_dump(d, &dt)))).collect();
             let refs: Vec<&dyn Array> = parts.iter().map(|x| x.as_ref()).collect();
             match arrow_select::concat::concat(&refs) {
-                Ok(o) => canon_kernel(&o, &[]),
+                Ok(o) => {
+                    emit_array(&o, "kconcat");
+                    canon_kernel(&o, &[])
+                }
                 Err(e) => format!("ERR:{}", err_class(&e)),
             }
         }
@@ -1240,7 +1656,7 @@ fn run_kcase(t: &[&str]) -> String {
 
 // ------------------------------------------------------------------ builder histories (hist op)
 
-const HIST_WORDS: [&str; 8] = ["", "a", "twelve bytes", "thirteen bytes", "a string that is longer than twelve bytes", "\u{20ac}uro sign and more text here", "zz", "another rather long value 0123456789"];
+const HIST_WORDS: [&str; 9] = ["", "a", "twelve bytes", "13 bytes long", "thirteen bytes", "a string that is longer than twelve bytes", "\u{20ac}uro sign and more text here", "zz", "another rather long value 0123456789"];
 
 /// a view array to feed `append_array` with: owns data buffers (long values), or all inline, possibly sliced
 fn hist_view_source(rng: &mut Rng) -> StringViewArray {
@@ -1647,6 +2063,9 @@ fn run_case(line: &str) -> String {
                     } else {
                         oracle(format!("in-validate_full-err:{}", err_class(&e)));
                         tag("res:in-invalid".into());
+                        if has_fsb0(&dt) && fs.contains(&"f:struct-child-short") {
+                            kf("kf:zero-width-select".into());
+                        }
                     }
                     return "wf=1".into();
                 }
@@ -1780,6 +2199,9 @@ fn classify_panic(step: &str, fs: &[&'static str], dt: &DataType) {
             }
         }
     }
+    if matches!(step, "string" | "string2") && has("f:dict-empty-values") {
+        kf("kf:like-dict-empty-values".into());
+    }
     if step == "sort" && matches!(dt, DataType::RunEndEncoded(..)) {
         kf("kf:sort-ree-rank-unwrap".into());
     }
@@ -1835,7 +2257,7 @@ fn gen_layout(rng: &mut Rng, dt: &DataType, n: usize, off: usize, no_nulls: bool
             Utf8View => {
                 let mut b = StringViewBuilder::new().with_fixed_block_size(32);
                 for _ in 0..total {
-                    if !no_nulls && rng.chance(1, 4) { b.append_null() } else { b.append_value(rng.pick(&["", "ab", "twelve bytes", "thirteen bytes", "a much longer string with \u{20ac} inside", "\u{1d11e}"])) }
+                    if !no_nulls && rng.chance(1, 4) { b.append_null() } else { b.append_value(rng.pick(&["", "ab", "twelve bytes", "13 bytes long", "thirteen bytes", "a much longer string with \u{20ac} inside", "\u{1d11e}"])) }
                 }
                 Arc::new(b.finish())
             }
@@ -2163,6 +2585,48 @@ fn main() {
         }
         let grid = type_grid();
         let n = n_cases(&args, 2500, 100000);
+        // DENSE deterministic boundary block: every size class x offset class x key type x core kernel,
+        // the same in every run (sizes around 8/12/16/32/64/128, offsets around byte / word boundaries)
+        {
+            let sizes = [0usize, 1, 7, 8, 9, 12, 13, 16, 17, 31, 32, 33, 63, 64, 65, 127, 128, 129];
+            let offs = [0usize, 1, 7, 8, 9, 63, 64, 65];
+            let keys = ["bool", "i32", "i64", "dec128", "utf8", "large-binary", "fsb3", "list-i32", "fsl2-i16", "struct", "dict-i8-utf8", "ree-i32-utf8", "union-dense", "union-sparse", "utf8view", "map"];
+            let core = ["filter", "take", "concat", "interleave", "zip", "nullif", "shift", "slice", "sort", "cast", "mutable", "ipc", "rowconv", "select2", "norm", "cmp"];
+            let mut brng = Rng::new(0xB0D1);
+            let mut c = 0usize;
+            for (ti, k) in keys.iter().enumerate() {
+                let dt = grid.iter().find(|g| g.0 == *k).unwrap().1.clone();
+                for (si, rows) in sizes.iter().enumerate() {
+                    let off = offs[(ti + si) % offs.len()];
+                    let cur = gen_layout(&mut brng, &dt, *rows, off, false, false);
+                    for j in 0..2 {
+                        let name = core[(ti + 3 * si + 7 * j) % core.len()];
+                        let desc = format!("dense.{}.{}/{}/gen", c, j, k);
+                        let op = if is_ext(&cur.dt) { "stepx" } else { "step" };
+                        let line = format!("C01 {} {} {}:{} {} {}", op, desc, name, brng.below(1 << 32), lt_token(&cur.dt), show_phys(&cur));
+                        let tags = format!("dense size:{} off:{} grid:{}{}", rows, off, k, if *rows > 0 { " nt" } else { "" });
+                        let (out, stopped, kfs) = emit(&mut sink, line, &tags);
+                        if let Some(out) = out {
+                            // the output is a produced array: send it to the Lean side as an `end` line
+                            if let Ok(p) = catch_unwind(AssertUnwindSafe(|| phys_of(&out.to_data()))) {
+                                if p.len <= 4 * MAX_ROWS + 70 {
+                                    let mut prev = name.to_string();
+                                    for k in kfs.iter() {
+                                        prev.push('!');
+                                        prev.push_str(k);
+                                    }
+                                    let _ = stopped;
+                                    let op = if is_ext(&p.dt) { "stepx" } else { "step" };
+                                    let line = format!("C01 {} dense.{}.{}/{}/{} end {} {}", op, c, j, k, prev, lt_token(&p.dt), show_phys(&p));
+                                    let _ = emit(&mut sink, line, &format!("dense-out from:{}", name));
+                                }
+                            }
+                        }
+                    }
+                    c += 1;
+                }
+            }
+        }
         // kernel-model correspondence and builder histories
         let mut krng = Rng::new(args.seed ^ 0xC01_0001);
         for _ in 0..n {
